@@ -66,7 +66,9 @@ REARRANGE_KEYS = ['canonical', 'alphanumeric', 'inverted-last', 'attributes-firs
 RECONFIGURE_KEYS = ['original', 'canonical', 'random']
 VAR_FORMATS = ['{prefix}{j}', 'a{i}', '{prefix}{i}', 'x{j}_', 'v{i}{j}',
                # format specifications and conversions are ordinary str.format syntax
-               '{prefix}{i:02d}', 'n{j:d}', '{prefix}{i!s}', '{prefix}{j:>02}']
+               '{prefix}{i:02d}', 'n{j:d}', '{prefix}{i!s}', '{prefix}{j:>02}',
+               # an option value that begins with a character argparse can be told to treat specially
+               '@{i}', '@{prefix}{j}']
 
 
 def plan_options(rng, spec):
